@@ -48,28 +48,37 @@ CHECKS = {
         'models (hash outputs assumed good). 14 known-finding classes (several pinned by the existing tests).',
    technique='Coq proof (per-opcode lemmas + induction over programs and over conditional nesting) over two Gallina interpreters; exhaustive differential correspondence'),
  'C08': dict(
-   text='State machine Ledger.v (keys, transactions, spent flags, the wallet balance cache) with step mirroring _balance_update, utxos_update, store, '
-        'send, delete, reopen. Theorems: inv_init, inv_step, inv_reachable (every reachable state over guarded histories of any length), '
-        'ledger_consistent (reported balance = sum of unspent outputs = sum of key balances; nothing consumed by a sent transaction is listed), '
-        'select_never_spent, reload_equal. Tie: history differential - random operation sequences on real wallets (sqlite) against the extracted '
-        'model after every operation, second Wallet object on the same file, failing histories shrunk.',
+   text='State machine Ledger.v (keys with (network, account) groups, transactions, spent flags, the wallet balance cache) with step mirroring _balance_update, '
+        'balance(account, network), utxos, utxos_update, utxo_add, store, send, delete, reopen. Theorems: inv_init, inv_step, inv_reachable (every reachable state over '
+        'guarded histories of any length), ledger_consistent and ledger_consistent_groups (for EVERY (network, account) group: reported balance = sum of unspent outputs '
+        '= sum of key balances; nothing consumed by a sent transaction is listed), groups_consistent_after_queries, balance_of_value, no_cross_reachable, '
+        'select_never_spent, reload_equal. Tie: history differential - random operation sequences on real wallets (sqlite) with several accounts and a second network, '
+        'interleaved key ids, sends/sweeps from non-default accounts, against the extracted model after every operation with per-group observations; second Wallet object '
+        'on the same file; failing histories shrunk.',
    design_ref='DESIGN.md section 6 C08, section 9',
-   note='Partial: SQLAlchemy session staleness, sqlite isolation and object lifetime are runtime behaviour reached only through the history '
-        'differential (testing). inv_step carries the guard op_ok (evaluated by the driver on every real step); the excluded class '
-        'restore_resets_spent is a known finding. Closed under the global context.',
-   technique='Coq proof (invariant by induction over operation lists) + history differential against real wallets'),
+   note='Partial: SQLAlchemy session staleness, sqlite isolation and object lifetime are runtime behaviour reached only through the history differential (testing). '
+        'inv_step carries the guard op_ok (evaluated by the driver on every real step); excluded classes restore_resets_spent and cross_account_output (one account per '
+        'transaction row: a payment between two accounts of a wallet) are known findings with Coq refutations. Six defects repaired by fix: commits. Closed under the '
+        'global context.',
+   technique='Coq proof (invariant by induction over operation lists, per (network, account) group) + history differential against real wallets'),
  'C02': dict(
-   text='Decision logic of Input.verify / Transaction.verify / Transaction.sign modelled for an ARBITRARY signature relation sv (Section variable): '
-        'verify_sound (True implies an order-preserving matching of m signatures to m distinct key positions, all valid), verify_complete, '
-        'verify_insufficient, verify_exact (iff characterisation), tx_verify_all_inputs, sign_fresh_then_verify; all for every key list, signature list '
-        'and threshold. Tie: real transactions of every standard input kind are built, signed in subsets/orders/several calls, tampered field by field, '
-        'round-tripped through raw()/parse and verified; verdicts, Input.valid flags and sign() status are compared with the extracted model; the '
-        'property-level oracle recomputes signature validity with fastecdsa on the library digest.',
+   text='Decision logic of Input.verify / Transaction.verify / Transaction.sign modelled for an ARBITRARY signature relation sv: verify_sound, verify_complete, '
+        'verify_insufficient(_sigs), verify_exact, tx_verify_all_inputs. sign_then_verify is a theorem: sign_history_exact / sign_history_then_verify (every history of '
+        'sign() and verify() calls on an input starting unsigned - any signer subsets and orders, repeated and foreign signers, fail_on_unknown_key, replace_signatures - '
+        'leaves exactly the own signatures of the listed signers in key order, verdict = m <=? number of distinct listed signers, every key list and m) and '
+        'tx_history_exact / tx_history_then_verify (the same through Transaction.sign over all inputs / one target and Transaction.verify; machine_*_is_tcall ties them '
+        'to the driver machine). tamper_changes_preimage / tamper_changes_digest (on C01: a change of version, locktime, any outpoint, sequence, output, the script code, '
+        'or for BIP143 the spent amount changes the preimage and the library digest, or a collision of H is exhibited) and tamper_detected(_tx): with the premise that '
+        'old signatures are valid for no other digest, verification of the tampered transaction is False unless m other signatures are present. Tie: real transactions of '
+        'every standard input kind are built, signed in subsets/orders/several calls, tampered field by field, round-tripped through raw()/parse and verified; verdicts, '
+        'Input.valid flags and sign() status are compared with the extracted model; the property-level oracle recomputes signature validity with fastecdsa.',
    design_ref='DESIGN.md section 6 C02, section 9',
-   note='Closed under the global context. ECDSA unforgeability is not claimed (C13 covers the signature layer); the general sign_then_verify over arbitrary '
-        'call sequences is stated as a Definition, proved only for the first sign() call on an unsigned input; tamper_changes_digest is covered by the '
-        'measured validity matrix, not by a theorem. Two known completeness findings (dup_point_keys, resign_keeps_stale).',
-   technique='Coq proof (induction over key/signature lists, arbitrary signature relation) + scenario differential correspondence'),
+   note='Closed under the global context. ECDSA unforgeability is not claimed: it is the explicit premise bound_to of stale_signatures_fail / tamper_detected (C13 covers '
+        'the signature layer). sign_history_* are proved under exactly the guards of the two known completeness findings, each with _refuted Examples: resign_free_all '
+        '(resign_keeps_stale; needed even without a digest change) and, only when a verification happens between sign() calls, dup_point_free (dup_point_keys). Histories '
+        'use one digest per input and start from an unsigned input or any canonical state; hand-edited signature lists are covered by verify_sound / verify_exact and the '
+        'correspondence only. tamper_* are for hash types treated like SIGHASH_ALL on the wf_stx domain of C01.',
+   technique='Coq proof (induction over key/signature lists and over call histories, arbitrary signature relation) + scenario differential correspondence'),
  'C07': dict(
    text='Pure Gallina model of Wallet.select_inputs, transaction_create (fee given/named/automatic, dust folding, change splitting with the random draws as '
         'inputs, the final checks), send, sweep, bumpfee; every binary64 expression modelled exactly on rationals with round-to-nearest-even. Theorems for '
@@ -140,15 +149,22 @@ CHECKS = {
    technique='Coq proof (induction over provider lists) + exhaustive small-configuration differential correspondence'),
  'C14': dict(
    text='Gallina model of BIP39 over index lists: spec_to_indices/spec_to_entropy from the BIP text for an arbitrary 32-byte hash, lib_* mirroring '
-        'Mnemonic.to_mnemonic/to_entropy through the five change_base conversions with their leading-zero rules. Theorems: bip39_roundtrip, '
-        'bip39_accept_canonical, bip39_checksum_mismatch_rejected (any hash), lib_is_bip39 for EVERY entropy of the five lengths including every '
-        'leading-zero pattern, lib_accepts_as_bip39, word_index_inverse/unknown_word_rejected for abstract NoDup lists, bundled_wordlists_ok (the nine '
-        'regenerated lists have 2048 distinct words, by vm_compute), seed_is_bip39 (PBKDF2/NFKD/UTF-8 as oracles). Tie: exhaustive leading-zero entropy '
-        'patterns, nine languages, unicode passphrases, single-word substitutions, Trezor vectors against an independent Python BIP39.',
+        'Mnemonic.to_mnemonic/to_entropy through the five change_base conversions with their leading-zero rules, detect_language, sanitize_mnemonic, the '
+        'validate / includes_checksum / add_checksum / check_on_curve switches and sessions of calls. Theorems: bip39_roundtrip, bip39_accept_canonical, '
+        'bip39_checksum_mismatch_rejected (any hash), lib_is_bip39 for EVERY entropy of the five lengths including every leading-zero pattern, lib_accepts_as_bip39, '
+        'word_index_inverse/unknown_word_rejected for abstract NoDup lists, bundled_wordlists_ok, bundled_wordlists_are_frozen (the nine lists regenerated from /repo '
+        'equal the frozen copies: an edited word breaks a proof), detect_language_sound/unique, sanitize_sound/complete, to_entropy_uses_own_list (never the detected '
+        'language or directory order), bundled_object_roundtrip, object_rejects_bad_sentence, seed_is_bip39 and seed_is_bip39_any_validate (validate only changes what '
+        'is refused), default_switches, raw_indices_value/raw_entropy_value, session_history_independent. Tie: exhaustive leading-zero entropy patterns, nine '
+        'languages, every public argument with non-default values, sentences in NFC/NFKC/ideographic-space form, sentences made only of words shared between two '
+        'lists, call sessions in one process, unicode passphrases, single-word substitutions, Trezor and Japanese vectors against an independent Python BIP39 over '
+        'frozen word lists.',
    design_ref='DESIGN.md section 6 C14, section 9',
-   note='PBKDF2, NFKD and UTF-8 are oracles (harness answers PBKDF2 queries with hashlib). The float math.log quotients of change_base are modelled as integer '
-        'division (revalidated each run). Two known findings (hexlike_entropy, from_passphrase_non_english); one defect repaired. Closed under the global context.',
-   technique='Coq proof (bit-regrouping lemmas, induction) + differential correspondence in nine languages'),
+   note='PBKDF2, NFKD and UTF-8 are oracles (harness answers PBKDF2 queries with hashlib, NFKD with unicodedata). The float math.log quotients of change_base are '
+        'modelled as integer division (revalidated each run). Frozen word lists are a copy of the bundled files at the pinned commit (english cross-checked by hash). '
+        'detect_language tie-breaking is not fixed by the property (a change there is reported without failing input). Two known findings (hexlike_entropy, '
+        'from_passphrase_non_english); one defect repaired. Closed under the global context.',
+   technique='Coq proof (bit-regrouping lemmas, induction, finite table facts by vm_compute) + differential correspondence in nine languages incl. call sessions'),
  'C09': dict(
    text='Wallet key book model: spec_path from BIP44/49/84/45/48, lib_path_expand over WALLET_KEY_STRUCTURES and KEY_PATH templates regenerated from config.py, '
         'key-book state machine (new_key, get_key, new_account, key_for_path, bulk creation, reopen). Theorems: path_is_documented (every table entry, '
@@ -202,10 +218,14 @@ CHECKS = {
         'digest_ok, digest_ok_sha256 (instantiated with the executable SHA-256), verify_digest_is_sign_digest, preimage_commits / preimage_commits_or_collision '
         '(equal digests imply equal committed fields or an explicit collision), legacy_preimage_commits; vm_compute refutations of the code before the two '
         'repairs. Tie: preimage bytes (not only hashes) of API-built and re-parsed transactions, every input index, mixed kinds, all hash types, permuted index_n, '
-        'BIP143 published vectors; signatures in raw() checked by an independent verifier over the spec digest.',
+        'BIP143 published vectors; signatures in raw() checked by an independent verifier over the spec digest. Life cycle of one Transaction object: 21 kinds of '
+        'in-place mutation / re-signing steps (add_input with its BIP68 version upgrade, set_locktime_*, sign_and_update, shuffle, merge, attribute writes) are modelled; '
+        'lib_digest_depends_only_on_fields, session_no_hidden_state, session_digest_is_fresh_digest, version_copies_agree, session_digest_ok: after any list of steps the '
+        'digest is the consensus digest of what raw() serialises now; sessions are replayed on real objects with an oracle that re-parses raw() at every observation.',
    design_ref='DESIGN.md section 6 C01, section 9',
    note='Closed under the global context. The legacy path ignores non-ALL hash types (known finding legacy_non_all, refuted in Coq); OP_CODESEPARATOR and taproot '
-        'digests are outside the model. Two defects repaired by fix: commits (BIP143 hashOutputs SINGLE/NONE swapped; input chosen by index_n attribute).',
+        'digests are outside the model. Three defects repaired by fix: commits (BIP143 hashOutputs SINGLE/NONE swapped; input chosen by index_n attribute; stale scriptSig after re-signing a P2PK input). '
+        'Exceptions inside sessions are not modelled (comparison stops at the first refused step).',
    technique='Coq proof (byte-level equality of two serializers by induction, arbitrary hash functions) + differential correspondence on preimage bytes'),
  'C10': dict(
    text='Gallina model of the multisig branch of Wallet.create / _new_key_multisig (cosigner ordering, BIP67 sorting, redeem script, script hash, paths) and of the '
@@ -233,16 +253,26 @@ CHECKS = {
         'finding (HDKey compressed=False is not representable in BIP32 serialisation); two defects repaired by fix: commits.',
    technique='Coq proof (codec round trips over regenerated prefix tables, finite table facts by vm_compute) + exhaustive-table differential correspondence'),
  'C13': dict(
-   text='Gallina model of Signature.create / __init__ / parse_bytes / as_der_encoded / verify, sign, verify and the fastecdsa DER coder (Model/Ecdsa.v, Model/Der.v) '
-        'over the executable affine secp256k1 and RFC 6979 with the Gallina HMAC-SHA256. Theorems: sign_verifies (ECDSA correctness in any commutative group with '
-        'a generator of prime order), executable_is_generic, lib_sign_verifies, lib_sign_low_s, der_strict (BIP66 for all r, s in range), der_roundtrip, '
-        'der_canonical, lib_sign_encoding, lib_sign_parse_roundtrip, nonce_is_rfc6979, explicit_nonce_is_used, lib_sign_refuses_bad_key, lib_verify_exact, '
-        'lib_pub_point_exact, lib_verify_point_exact, lib_parse_exact; refutation witnesses for the code before the repairs and for three open classes. Tie: '
-        'boundary keys/digests/nonces, r and s at every range edge, every DER length form, independent signer, single mutations of encodings, wrong keys/digests '
-        'through keys.sign / keys.verify / Signature.parse_bytes / der_encode_sig.',
+   text='Gallina model of Signature.create / __init__ / parse_bytes / as_der_encoded / verify, the public_key and txid setters, sign, verify and the fastecdsa DER coder '
+        '(Model/Ecdsa.v, Model/Der.v) over the executable affine secp256k1 and RFC 6979 with the Gallina HMAC-SHA256, including SESSIONS: a process signing many requests '
+        '(lib_sign_session) and ONE Signature object verified again and again (lib_verify_session, carrying _txid, x, y, _public_key). Theorems: sign_verifies (ECDSA '
+        'correctness in any commutative group with a generator of prime order), executable_is_generic, lib_sign_verifies, lib_sign_low_s, der_strict (BIP66 for all r, s in '
+        'range), der_roundtrip, der_canonical, lib_sign_encoding, lib_sign_parse_roundtrip, nonce_is_rfc6979, explicit_nonce_is_used, lib_sign_refuses_bad_key, '
+        'lib_verify_exact, lib_pub_point_exact, lib_verify_point_exact, lib_parse_exact; sign_session_is_function, sign_session_position_independent, '
+        'sign_session_repeatable, sign_session_all_low_s, verify_session_is_function, signed_object_session, verify_session_exact (every explicit verify step on a reused '
+        'object is the stateless verifier, and standard ECDSA for SEC-form keys given as object, bytes or hex text), verify_defaults_replay, verify_defaults_keep_key, '
+        'verify_text_key_is_bytes_key; refutation witnesses for the code before the three repairs and for the open classes. Tie: boundary keys/digests/nonces, r and s at '
+        'every range edge, every DER length form, independent signer, single mutations of encodings, wrong keys/digests through keys.sign / keys.verify / '
+        'Signature.parse_bytes / der_encode_sig; plus whole sessions run in one adapter process / on one object: signseq (key/digest pairs colliding under realistic cache '
+        'keys: multiples of 2^61-1, 2^31-1, 2^32, 2^64, d / n-d, swapped, repeats, interleavings, reused Key objects; nonce distinctness checked across pairs), vseq (objects '
+        'from sign, create, parse_* with and without public_key=; own / negated / equal-y / unrelated keys in every accepted form; omitted arguments; keys.verify and '
+        'Signature.verify), signrand (use_rfc6979=False judged with the reported nonce).',
    design_ref='DESIGN.md section 6 C13, section 9',
    note='Closed under the global context. The group law of the executable curve and primality of n are premises of sign_verifies (no EC library installed); nonce '
-        'uniqueness across messages is the pseudo-randomness of HMAC and is not claimed. Known findings: der64 ambiguity, lax DER acceptance by fastecdsa, nonce '
-        'derived from the hex TEXT of the digest, unreduced point coordinates. Two defects repaired by fix: commits.',
-   technique='Coq proof (abstract group algebra, DER codec by case analysis and lia) + extracted-model differential correspondence incl. malformed encodings'),
+        'uniqueness across (key, message) pairs is the pseudo-randomness of HMAC and is not claimed as a theorem - the harness checks it on the enumerated colliding pairs '
+        'of every signing session. The session theorems say the model keeps no state that reaches an answer; that the LIBRARY keeps none (no cache, no remembered '
+        'attribute) is what the session correspondence checks on every run. use_rfc6979=False has no model answer (oracle only); Signature objects shared between threads '
+        'are not covered. Known findings: der64 ambiguity, lax DER acceptance by fastecdsa, nonce derived from the hex TEXT of the digest, unreduced point coordinates. '
+        'Three defects repaired by fix: commits (low-S float division, short DER rejected, public key as hex text rejected).',
+   technique='Coq proof (abstract group algebra, DER codec by case analysis and lia, session folds) + extracted-model differential correspondence incl. malformed encodings and stateful sessions'),
 }
